@@ -11,8 +11,9 @@ def claim(pid, text, note, technique, design_ref, category=LEVEL_OTHER):
 
 PROOF_PLUS_BOUNDED = ('contract-based deductive verification of the real functions (pyvc: VCs generated from /repo source every run, '
                       'discharged by z3) + the same contracts evaluated at run time as bounded stand-in')
-TB = ('trusted: z3, our VC generator pyvc and its encoding of Python (DESIGN 2.2, 6); assumed contract on SCFG._sync_exiting (frame only); '
-      'tier-B functions (loop_restructure_helper, restructure_*, extract_region, scc, ...) are checked only within the stated bounds')
+TB = ('trusted: z3, our VC generator pyvc and its encoding of Python (DESIGN 2.2, 6, 11); value-mode callers do not check the heap preconditions of '
+      'SCFG._sync_exiting (proved separately in heap mode); tier-B functions (loop_restructure_helper, restructure_loop/branch, extract_region, update_exiting, '
+      'scc, _imm_doms, SCFG.__iter__, SCFGIO, ast_transforms, rendering) are checked only within the stated bounds')
 
 claim('C01', 'Mixed: the arc-preservation facts of the edit primitives (insert_block, SyntheticBranch.replace_jump_targets, jump_targets) are proved for all '
       'inputs; the whole-pipeline claim path_equiv(original, result) is decided per instance by exhaustive product exploration (W1 by name, W2 by region) '
@@ -21,10 +22,14 @@ claim('C02', 'Mixed: every no-raise obligation (assert, subscript, .index, next(
       'maintenance under its callers\' precondition; acceptance of every closed CFG by the tier-B drivers is checked exhaustively up to the node bound and on random '
       'graphs to 18 nodes with a CPU-time limit (bounded).', TB + '; termination of tier-B loops is observed, not proved', PROOF_PLUS_BOUNDED, '5.C02')
 claim('C03', 'Bounded at property level: structured(H) (acyclic per level without declared back edges, loop regions with a single latch back edge, '
-      'head/branch/tail discipline) evaluated on every fully restructured result of the enumeration; proved facts it rests on: declare_backedge, query contracts.',
+      'head/branch/tail discipline) evaluated on every fully restructured result of the enumeration; proved facts it rests on: declare_backedge, the query contracts and the '
+      'region-discovery helpers find_head_blocks (chain from the head), find_branch_regions (empty arm iff another arm reaches it, members = dominated by the arm and not by the end, '
+      'modular over _doms and is_reachable_dfs), find_tail_blocks, _doms/_post_doms (= path-based dominance).',
       TB, 'property-level contract checked on the enumerated scope; supporting function contracts proved by pyvc/z3', '5.C03')
-claim('C04', 'Mixed: key/frame invariants of the edit primitives proved (value mode); WF(H) evaluated after every stage on the enumerated scope (bounded).',
-      TB + '; the hierarchy clause (exiting chain of region predecessors) is bounded only', PROOF_PLUS_BOUNDED, '5.C04')
+claim('C04', 'Mixed: key/frame invariants of the edit primitives proved (value mode); SCFG._sync_exiting proved in heap mode for every nesting depth (every sub-graph keeps its keys, '
+      'only jump targets and the value tables that follow them change, the exiting block of the argument is re-targeted position by position, arity of non-leaf levels kept, no exception); '
+      'WF(H) evaluated after every stage on the enumerated scope and the hierarchy clause at every edit call incl. region predecessors (bounded).',
+      TB + '; that the edit primitives call _sync_exiting on every re-targeted region predecessor is bounded only (run-time hierarchy clause)', PROOF_PLUS_BOUNDED, '5.C04')
 claim('C05', 'Mixed: frames of the edit primitives proved (replace = functional update keeping class tag and every other field; untouched blocks identical); '
       'conserved(original, result) evaluated after every stage with plain, bytecode and AST payloads (bounded).', TB, PROOF_PLUS_BOUNDED, '5.C05')
 claim('C06', 'Mixed: the table invariant (every entry names a successor, every successor has an entry, keys preserved under position-wise renaming) is proved for '
@@ -57,22 +62,28 @@ claim('C12', 'Mixed: functional postconditions of the order-sensitive leaf funct
       'PYTHONHASHSEED values in subprocesses on enumerated and random inputs (bounded).', TB + '; sorted() anchors inside tier-B functions are covered only by the bounded comparison',
       PROOF_PLUS_BOUNDED + ' across hash seeds', '5.C12')
 claim('C13', 'Mixed, mostly proved: find_head, find_headers_and_entries (top-level graphs), find_exiting_and_exits, is_reachable_dfs, exclude_blocks, '
-      'jump_targets, is_exiting are proved equal to their definitions for all graphs (incl. external targets, duplicates, back edges); compute_scc/scc, '
-      '_doms/_post_doms/_find_dominators_internal and _imm_doms are compared with brute-force path-based definitions on all small digraphs (bounded).',
-      TB + '; axiom R-ind (closure principle of reachability) assumed; find_headers_and_entries proved for region kind "meta" only (the recursion through the '
-      'parent region is bounded)', PROOF_PLUS_BOUNDED, '5.C13')
+      'jump_targets, is_exiting are proved equal to their definitions for all graphs (incl. external targets, duplicates, back edges); _doms / _post_doms are proved to '
+      'return exactly path-based dominance on the in-graph edge relation (tables = edge relation and its converse, entries = blocks without in-graph predecessors / successors; '
+      '_find_dominators_internal: assertion never fires, exit state solves the dominator equations, contains every dominator and only dominators); compute_scc/scc and '
+      '_imm_doms are compared with brute-force definitions on all small digraphs (bounded), as is everything proved.',
+      TB + '; graph-theory axioms given to the solver, each also evaluated against the brute-force definition at run time: R-ind (closure principle of reachability), '
+      'D-entry / D-step / D-gfp (consequences of path-based dominance); termination of the dominator fix point observed, not proved; find_headers_and_entries proved for '
+      'region kind "meta" only', PROOF_PLUS_BOUNDED, '5.C13')
 claim('C14', 'Mixed, mostly proved: all value-level clauses of insert_block and its four typed wrappers, insert_block_and_control_blocks (each re-routed arc gets its own '
       'assignment block whose constant the new head maps back to the arc\'s original target), join_returns, join_tails_and_exits, add_block, remove_blocks and '
       'SyntheticBranch.replace_jump_targets are discharged for all inputs (exact re-routing, order of remaining successors, positional replacement, frame); '
-      'region predecessors (hierarchy clause, checked at every internal call) and edit sequences are bounded.', TB + '; R3 (predecessor with a declared back edge) is a recorded finding, proved on its complement',
+      'SCFG._sync_exiting (re-targeting of the exiting chain of a region predecessor) is proved in heap mode for every nesting depth; that the primitives apply it to every region '
+      'predecessor (hierarchy clause, evaluated at every internal call and on generated calls with region predecessors) and edit sequences are bounded.',
+      TB + '; R3 (predecessor with a declared back edge) and R13 are recorded findings, proved on their complement',
       PROOF_PLUS_BOUNDED, '5.C14')
 claim('C15', 'Bounded + finite: registry coverage and a per-class field round trip are decided completely over the block classes (E3); dictionary/YAML round trips and '
       'write-read-write-read chains are executed on every enumerated closed CFG at every stage prefix and on bytecode graphs (bounded). to_dict/from_dict are tier B.',
       'yaml trusted; no deductive contract on SCFGIO (work-list over a heterogeneous hierarchy); R4b (PythonASTBlock not serialisable) is a recorded finding',
       'finite case split over block classes (E3) + round-trip contract evaluated on the enumerated scope', '5.C15')
-claim('C16', 'Bounded: list(scfg) and the region-concealing view of every level of every enumerated result compared with the hierarchy '
-      '(exactly once, head first, after a predecessor); proved: exclude_blocks (generator) and the queries it uses.', TB,
-      'property-level contract checked on the enumerated scope; supporting function contracts proved by pyvc/z3', '5.C16')
+claim('C16', 'Mixed: ConcealedRegionView.region_view_iterator is proved for all levels whose regions mirror their exiting blocks (the C04 clause, as precondition): it yields '
+      'exactly the blocks and regions of the level reachable from the start, each once (closure principle R-ind); SCFG.__iter__ is bounded: list(scfg) and the view of every '
+      'level of every enumerated result, and of all small flat digraphs with duplicate targets, compared with the hierarchy (exactly once, head first, after a predecessor).', TB,
+      PROOF_PLUS_BOUNDED, '5.C16')
 
 NOT_YET = 'check not built yet in this session (see DESIGN.md section 9 for the order of work)'
 claim('C17', 'Bounded (claimed as such): the DOT source of every enumerated graph at every stage prefix is parsed and compared with the hierarchy (nodes, nested clusters, '
